@@ -1,6 +1,7 @@
 import CpModel.Proto
 import CpModel.SessionLock
 import CpModel.SessionReq
+import CpModel.SessionFile
 /-!
   Driver for C13.  One case per line.
 
@@ -127,9 +128,62 @@ def stepReqLine (args : List String) : String :=
       s!"J={joinOr j} HELD={total}"
   | _ => "bad-op"
 
+/-! ### file backend
+
+    file <file> <n> <sched>     file = A (absent) | E (empty) | <counter>:<exp>
+        sched tokens: <i> | S | K<d>
+      -> per step `F=<holder|->;C=<A|E|v:exp>;P=<pcs>;W=<sweeper pc>;L=<lost>;D=<deadlock>` joined by `|` -/
+namespace FileDrv
+
+def showActor : SessionFile.Actor → String
+  | .req i => s!"r{i}" | .sweep => "S" | .tick d => s!"K{d}" | .expire i => s!"X{i}"
+
+def showPc : SessionFile.Pc → String
+  | .init => "init" | .acq => "acq" | .openr => "openr" | .load => "load" | .trunc => "trunc"
+  | .dump => "dump" | .rel => "rel" | .done => "done" | .gone => "gone" | .failed => "failed"
+
+def showSPc : SessionFile.SPc → String
+  | .list => "list" | .acq => "acq" | .openr => "openr" | .load => "load" | .unlink => "unlink"
+  | .rel => "rel" | .crashed => "crashed"
+
+def showFile : SessionFile.FileC → String
+  | .absent => "A" | .empty => "E" | .data v e => s!"{v}:{e}"
+
+def snapshot (n : Nat) (s : SessionFile.St) : String :=
+  let f := match s.flock with | some a => showActor a | none => "-"
+  let p := joinOr ((List.range n).map fun i => showPc (s.thr i).pc)
+  let unfinished := (List.range n).any fun i =>
+    match (s.thr i).pc with | .done | .gone | .failed => false | _ => true
+  let anyEnabled := (List.range n).any fun i => SessionFile.enabled s (SessionFile.Actor.req i)
+  let d := if unfinished && !anyEnabled && !(SessionFile.enabled s SessionFile.Actor.sweep && s.flock == some SessionFile.Actor.sweep) then "1" else "0"
+  s!"F={f};C={showFile s.file};P={p};W={showSPc s.sw.pc};L={if s.lost then 1 else 0};D={d}"
+
+def parseActor (s : String) : Option SessionFile.Actor :=
+  if s == "S" then some SessionFile.Actor.sweep
+  else if s.startsWith "K" then (s.drop 1).toString.toNat?.map SessionFile.Actor.tick
+  else if s.startsWith "X" then (s.drop 1).toString.toNat?.map SessionFile.Actor.expire
+  else s.toNat?.map SessionFile.Actor.req
+
+def parseFile (s : String) : Option SessionFile.FileC :=
+  if s == "A" then some SessionFile.FileC.absent else if s == "E" then some SessionFile.FileC.empty else
+  match s.splitOn ":" with
+  | [a, b] => do pure (SessionFile.FileC.data (← a.toNat?) (← b.toNat?))
+  | _ => none
+
+def stepLine (args : List String) : String :=
+  match args with
+  | [f, n, sched] =>
+    match parseFile f, n.toNat?, (if sched == "-" then some [] else (sched.splitOn ",").mapM parseActor) with
+    | some f, some n, some sched => joinOr ((SessionFile.trace (SessionFile.init f) sched).map (snapshot n)) "|"
+    | _, _, _ => "bad-op"
+  | _ => "bad-op"
+
+end FileDrv
+
 def step (line : String) : String :=
   match Proto.fields line with
   | "ram" :: args => stepRam args
+  | "file" :: args => FileDrv.stepLine args
   | "req" :: args => stepReqLine args
   | _ => "bad-op"
 
